@@ -1,5 +1,11 @@
 package main
 
+import (
+	"sort"
+
+	"golang.org/x/tools/go/ssa"
+)
+
 // tryEvalBool evaluates a clause, reporting false instead of aborting the function when the
 // clause cannot be evaluated (e.g. a generic callee's clause that only type-checks for one
 // instantiation). Skipping an assumption is always sound.
@@ -16,4 +22,45 @@ func (x *Exec) tryEvalBool(env *SpecEnv, e Expr) (g string, ok bool) {
 		}
 	}()
 	return env.evalBool(e), true
+}
+
+// deterministic iteration orders: the text of a query must not depend on Go's map order,
+// otherwise solver behaviour on hard queries varies from run to run
+func sortedAllocs(m map[*ssa.Alloc]bool) []*ssa.Alloc {
+	var out []*ssa.Alloc
+	for a := range m {
+		out = append(out, a)
+	}
+	sort.Slice(out, func(i, j int) bool {
+		a, b := out[i], out[j]
+		if a.Parent() != b.Parent() {
+			return a.Parent().String() < b.Parent().String()
+		}
+		if a.Block().Index != b.Block().Index {
+			return a.Block().Index < b.Block().Index
+		}
+		if a.Pos() != b.Pos() {
+			return a.Pos() < b.Pos()
+		}
+		return a.Name() < b.Name()
+	})
+	return out
+}
+
+func sortedInts(m map[int]bool) []int {
+	var out []int
+	for i := range m {
+		out = append(out, i)
+	}
+	sort.Ints(out)
+	return out
+}
+
+func sortedBlocks(m map[*ssa.BasicBlock]bool) []*ssa.BasicBlock {
+	var out []*ssa.BasicBlock
+	for b := range m {
+		out = append(out, b)
+	}
+	sort.Slice(out, func(i, j int) bool { return out[i].Index < out[j].Index })
+	return out
 }
